@@ -24,7 +24,7 @@ def _retag(ps, prop):
 def _c02(tier, seed):
     ps = families.c02(tier, seed) + families.wide("C02")
     ps = ps + families.uniform_twins(ps, 2 if tier == "quick" else 1) + families.adv_twins(ps, 4 if tier == "quick" else 2) + families.selfadv_twins(ps)
-    ps = ps + families.own_placements("C02", ps) + families.own_spellings("C02", "PartialEq") + families.bound_twins(ps)
+    ps = ps + families.own_placements("C02", ps) + families.own_spellings("C02", "PartialEq") + families.bound_twins(ps) + families.foreign_attr_twins(ps)
     # PartialEq educed next to PartialOrd / Ord whose fields carry ignore / method / rank: `==` still compares every field
     import copy as _copy
     extra = []
@@ -42,40 +42,40 @@ def _c02(tier, seed):
 def _c03(tier, seed):
     ps = families.c03(tier, seed) + families.wide("C03")
     ps = ps + families.uniform_twins(ps, 2 if tier == "quick" else 1) + families.adv_twins(ps, 4 if tier == "quick" else 2) + families.selfadv_twins(ps)
-    ps = ps + families.own_placements("C03", ps) + families.own_spellings("C03", "Ord") + families.bound_twins(ps)
+    ps = ps + families.own_placements("C03", ps) + families.own_spellings("C03", "Ord") + families.bound_twins(ps) + families.foreign_attr_twins(ps)
     return ps + families.canaries_ord(ps)
 
 
 def _c05(tier, seed):
     ps = families.c05(tier, seed) + families.wide("C05")
     ps = ps + families.uniform_twins(ps, 2 if tier == "quick" else 1) + families.adv_twins(ps, 4 if tier == "quick" else 2) + families.selfadv_twins(ps)
-    ps = ps + families.own_placements("C05", ps) + families.own_spellings("C05", "Hash") + families.bound_twins(ps, genericize=True)
+    ps = ps + families.own_placements("C05", ps) + families.own_spellings("C05", "Hash") + families.bound_twins(ps, genericize=True) + families.foreign_attr_twins(ps)
     return ps + families.canaries_hash(ps)
 
 
 def _c07(tier, seed):
     ps = families.c07(tier, seed) + families.wide("C07")
     ps = ps + families.uniform_twins(ps, 2 if tier == "quick" else 1) + families.adv_twins(ps, 4 if tier == "quick" else 2) + families.selfadv_twins(ps)
-    ps = ps + families.own_placements("C07", ps) + families.bound_twins(ps) + families.bound_twins([p for p in ps if p.s("clone", "copy")], limit=5, suffix="c")
+    ps = ps + families.own_placements("C07", ps) + families.bound_twins(ps) + families.bound_twins([p for p in ps if p.s("clone", "copy")], limit=5, suffix="c") + families.foreign_attr_twins(ps)
     return ps + families.canaries_clone(ps)
 
 
 def _c08(tier, seed):
     ps = families.c08(tier, seed)
     ps = ps + families.selfadv_twins(ps, 7, 8)
-    ps = ps + families.own_placements("C08", ps, 6) + families.bound_twins(ps, genericize=True)
+    ps = ps + families.own_placements("C08", ps, 6) + families.bound_twins(ps, genericize=True) + families.foreign_attr_twins(ps, 4)
     return ps + families.canaries_default(ps)
 
 
 def _c09(tier, seed):
     ps = families.c09(tier, seed) + families.wide("C09")
-    ps = ps + families.own_placements("C09", ps)
+    ps = ps + families.own_placements("C09", ps) + families.foreign_attr_twins(ps, 4)
     return ps + families.canaries_deref(ps)
 
 
 def _c10(tier, seed):
     ps = families.c10(tier, seed) + families.wide("C10")
-    ps = ps + families.own_placements("C10", ps)
+    ps = ps + families.own_placements("C10", ps) + families.foreign_attr_twins(ps, 4)
     return ps + families.canaries_into(ps)
 
 
@@ -107,7 +107,7 @@ def _c06(tier, seed):
         if p.generics and (i % 3 == 0 or nameless) and all(re.match(r"^T\d$", g) for g in p.generics):
             for g in (p.generics if nameless else p.generics[:1]):
                 p.inst[g] = "Option<u8>"
-    ps = ps + families.own_placements("C06", ps) + families.own_spellings("C06", "Debug") + families.bound_twins(ps)
+    ps = ps + families.own_placements("C06", ps) + families.own_spellings("C06", "Debug") + families.bound_twins(ps) + families.foreign_attr_twins(ps)
     return ps + families.canaries_debug(ps)
 
 
